@@ -41,6 +41,9 @@ func genHistory(rt *rapid.T, spec *ImageSpec, n int, allowBroken bool) {
 	nEmpty := rapid.SampledFrom([]int{0, 0, 1, 1, 2, 3}).Draw(rt, "hist.empties")
 	// positions of the empty entries among the n+nEmpty slots
 	total := n + nEmpty
+	if total == 0 {
+		return // no layers and no history entries at all (what empty.Image is)
+	}
 	isEmpty := make([]bool, total)
 	for e := 0; e < nEmpty; e++ {
 		pos := rapid.IntRange(0, total-1).Draw(rt, "hist.emptypos")
